@@ -3,6 +3,7 @@ from propkit import job
 STATS = "harness/extras/trafficlogger/c15_stats_test.go"
 CENSUS = "harness/extras/trafficlogger/c15_census_test.go"
 SLOWLOG = "harness/extras/trafficlogger/c15_slowlog_test.go"
+REALKICK = "harness/extras/trafficlogger/c15_realkick_test.go"
 
 PROP = {
     "level": "exploration",
@@ -14,8 +15,8 @@ PROP = {
             [STATS], "^TestVerifC15(Conservation|LinHist)$",
             ["c15-conserve", "c15-linhist"], race=True, timeout_quick=600, timeout_thorough=3600),
         job("census", "extras", "./trafficlogger/", "trafficlogger",
-            [STATS, CENSUS, SLOWLOG], "^TestVerifC15(Census|SlowLogger)$",
-            ["c15-census", "c15-slowlog"], race=True, timeout_quick=600, timeout_thorough=3600),
+            [STATS, CENSUS, SLOWLOG, REALKICK], "^TestVerifC15(Census|SlowLogger|RealKick)$",
+            ["c15-census", "c15-slowlog", "c15-realkick"], race=True, timeout_quick=600, timeout_thorough=3600),
     ],
     "parallel": 2,
     "post": [
@@ -53,9 +54,18 @@ PROP = {
              "authentication is still being answered; per id the balance of DELIVERED events never goes negative "
              "(single-connection ids: exactly online then offline), balance == GET /online == open authenticated "
              "connections at quiescence, {} and online==offline counts after everybody left (client close or server close). "
+             "realkick (same job, real time, no bubble): real server on UDP 127.0.0.1:0 with the DEFAULT outbound, so the "
+             "relay target is a real *net.TCPConn (WriterTo/ReaderFrom fast paths, *net.OpError wrapping), real stats "
+             "server behind the recorder, real clients, harness TCP listeners on loopback; one relay carries data in one "
+             "direction only (download or upload, chunk 700..40000 B, paced by the recorder), POST /kick, next chunk: its "
+             "report must be refused exactly once and, after a logical clock of 100 (+100) complete echo round trips of "
+             "another user through the same server, the user's offline notification must have been delivered and a new "
+             "Client.TCP on the kicked client must fail; the user's idle second connection (every other pair of cases) "
+             "stays listed with 1 and its next report is accepted. Real-time waits are watchdogs (inconclusive only). "
              "Non-trivial = round with non-empty cleared snapshots and refusals / history with overlapping operations "
              "on one user / census script containing a kick or a non-client-close ending; distinct = distinct script."),
     "assumptions": [
+        "realkick: 'later' after a refused report = 2 x 100 complete round trips of another user through the same server (logical clock, as in C06's real-socket part)",
         "histories are partitioned by user: a snapshot that is not atomic across users is not detected (the property is per user)",
         "absent user in a listing is read as zero traffic / zero connections; a listed user with 0 connections is reported as stale",
         "census: lossless simnet links; quiescence = synctest.Wait() after a virtual settle (1 s, 40 s after a blackhole)",
